@@ -6,8 +6,9 @@ from lib.vlib import *
 
 META = {
     "property_id": "C12",
-    "technique": "Coq proof over a Gallina model of label.go/sourceFile.go and of the sources=/generates= call sites + "
-                 "exhaustive short-string correspondence + call-site sweep on really loaded projects",
+    "technique": "Coq proof over a Gallina model of label.go/sourceFile.go, of the sources=/generates= call sites and of the "
+                 "call sites that turn a user-spelled label into a key (deps=, get_target, LoadTarget) + "
+                 "exhaustive short-string correspondence + call-site sweeps on really loaded projects",
     "level_text": "Theorems (Coq, unbounded): parse is total, Parse(String(l)) = l for every accepted label with a name or "
                   "no kind, String is injective on those, the same after RelativeTo, repoSourcePath results have no '..' "
                   "component, the OS path stored for an accepted generates= / sources= entry is the cleaned project root "
@@ -17,7 +18,9 @@ META = {
                   "the target builtin is called (and, for a sample, BUILD.dawn files are loaded) in projects rooted at real "
                   "directories with every path of <= 3 (quick) / 4 (thorough) components over a vocabulary derived from the "
                   "root's own name and its parent's, the resolved OS paths are checked to lie inside the root and are "
-                  "recomputed by the model.",
+                  "recomputed by the model; the deps=/get_target/LoadTarget call sites are driven with every short string "
+                  "over {a . / :} and constructed re-spellings of defined targets, keys compared with the model, and whole "
+                  "projects are loaded and built with re-spelt labels, keys read back from the records on disk.",
     "level_note": "Trusted: Coq kernel; Go's path.Clean/path.Join and url.PathEscape are modelled (component-level) and "
                   "validated only by the correspondence sweep; filesystem symlinks are out of scope.",
     "design_ref": "DESIGN.md §6 C12",
@@ -211,7 +214,7 @@ def run(ctx):
     site_depth, site_roots = (3, 2) if ctx.quick() else (4, 4)
     site_nrand, site_nload = (300, 50) if ctx.quick() else (4000, 300)
     out4 = os.path.join(ctx.tmp, "c12_keys.tsv")
-    key_maxlen, key_nrand, key_nproj = (5, 1500, 2) if ctx.quick() else (7, 20000, 12)
+    key_maxlen, key_nrand, key_nproj = (5, 1500, 2) if ctx.quick() else (6, 8000, 12)
     env2 = {"VERIF_OUT": out2, "VERIF_MAXLEN": str(6 if ctx.quick() else 8),
             "VERIF_OUT_KEYS": out4, "VERIF_KEY_MAXLEN": str(key_maxlen), "VERIF_KEY_NRAND": str(key_nrand),
             "VERIF_KEY_NPROJ": str(key_nproj),
@@ -276,6 +279,10 @@ def run(ctx):
                 panics.append(f)
                 continue
             key = f[0] + ":" + ("err" if "err" in f[1:] else "ok")
+            if f[0] == "dep":
+                key = "dep(%s):%s" % (f[5], f[3])
+            elif f[0] == "find":
+                key = "find:get_target %s, LoadTarget %s" % (f[3], f[5])
             dist[key] = dist.get(key, 0) + 1
             cases.append(f)
     ctx.coverage["evaluations"] = len(cases)
@@ -287,9 +294,17 @@ def run(ctx):
                             "loaded projects at %d root directories <tmp>/<P>/<B>, g = every sequence of <= %d components over "
                             "{.., ., '', x, s, B, B-o, B2, B minus its last byte, P} with and without a leading '/', from "
                             "packages //, //s, //s/t, + %d seeded deeper paths per root, + every single-component entry and %d sampled per root end to "
-                            "end through BUILD.dawn/Load (a panic or process death on an entry is an oracle failure); non-trivial = accepted by the implementation; distinct by full case"
+                            "end through BUILD.dawn/Load (a panic or process death on an entry is an oracle failure); identity keys: target(deps=[s]), "
+                            "get_target(s) and Project.LoadTarget(s) of a loaded project with 10 defined targets, from packages "
+                            "//, //a, //a/a, s = every string of length <= %d over {a . / :} (%s), every re-spelling of the defined "
+                            "labels by construction (separators doubled / trailing / extra after the root, relative forms, kinds, "
+                            "projects, name-less: %s) and %s seeded edits of those; + %d projects on disk whose BUILD.dawn files refer "
+                            "to 4 targets and one module under every re-spelling (string literals and package + suffix), loaded "
+                            "and built, keys read from the dependency lists and from the records on disk; "
+                            "non-trivial = accepted by the implementation; distinct by full case"
                             % (maxlen, maxlen - 1, 6 if ctx.quick() else 8, nrand, site_roots, site_depth, site_nrand,
-                               site_nload))
+                               site_nload, key_maxlen, key_info.get("enumerated", "?"), key_info.get("constructed", "?"),
+                               key_info.get("random", "?"), key_nproj))
     ctx.coverage["exhaustive"] = True
     ctx.coverage["correspondence"]["distribution"] = dist
     ctx.add_samples([show(f) for f in cases[1000:1003] + cases[-2:]])
